@@ -165,6 +165,16 @@ var c15 = gen.Register(&gen.Check[caseC15]{
 			o.ClassIf(cap(gm.slice) > len(gm.slice), "layout:msg-spare-capacity")
 			o.ClassIf(len(dstData) > 255, "dst>255")
 			o.NonTrivialIf(cap(gd.slice) > len(gd.slice) || cap(gm.slice) > len(gm.slice) || c.Shared || c.MsgLay.Pre > 0 || c.DstLay.Pre > 0)
+			// a REJECTED call first (empty DST: the documented panic, recovered), whose arguments are zero-length slices of canary
+			// buffers with spare capacity, and a message: these buffers stay the caller's as well
+			rejMsg, rejDst := guard([]byte("rejected-message"), gen.Layout{Pre: 2, Post: 9}), guard(nil, gen.Layout{Pre: 3, Post: 64, Fill: c.DstLay.Fill})
+			rejDst.slice = rejDst.backing[3:3:len(rejDst.backing)]
+			if c.Cond%2 == 0 {
+				if _, pnc := callHash(map[string]string{"HashToGroup": "ro", "EncodeToGroup": "nu", "HashToScalar": "scalar"}[c.Call], rejMsg.slice, rejDst.slice); pnc == nil {
+					return gen.Fail(c.Call+"/empty-dst-accepted", "a zero-length DST with capacity was accepted")
+				}
+				o.Class("after-rejected-call")
+			}
 			if _, pnc := callHash(map[string]string{"HashToGroup": "ro", "EncodeToGroup": "nu", "HashToScalar": "scalar"}[c.Call], gm.slice, gd.slice); pnc != nil {
 				return gen.Fail(c.Call+"/panic", "panic: %v", pnc)
 			}
@@ -188,6 +198,12 @@ var c15 = gen.Register(&gen.Check[caseC15]{
 			}
 			if i, ok := gm.intact(); !ok {
 				return gen.Fail(c.Call+"/retains-msg-buffer", "a later hashing call wrote to the message buffer of an earlier %s call (byte %d)", c.Call, i)
+			}
+			if i, ok := rejDst.intact(); !ok {
+				return gen.Fail(c.Call+"/retains-rejected-dst-buffer", "a hashing call wrote to the buffer behind the zero-length DST of an earlier, rejected %s call (byte %d: %#x -> %#x)", c.Call, i, rejDst.snap[i], rejDst.backing[i])
+			}
+			if i, ok := rejMsg.intact(); !ok {
+				return gen.Fail(c.Call+"/retains-rejected-msg-buffer", "a hashing call wrote to the message buffer of an earlier, rejected %s call (byte %d)", c.Call, i)
 			}
 			return nil
 
